@@ -310,4 +310,94 @@ Proof.
     + rewrite <- Hr2. apply ref_text_node. cbn [w_nodes]. rewrite upd_neq by exact Rself. exact G2.
 Qed.
 
+(* ---------- the public calls ---------- *)
+Definition container_clauses (w w' : world) (m : N) (mv : id) : Prop :=
+  (forall rf x, live_ref T w m rf -> designates T w m rf x -> below T w mv x -> designates T w' m rf x) /\
+  (forall rf p, ref_text T w rf = Some p ->
+                ~ (live_ref T w m rf /\ exists x, designates T w m rf x /\ below T w mv x) -> ref_text T w' rf = Some p).
+
+Lemma container_of_same_refs w w' m mv :
+  w_models w' = w_models w -> (forall rf p, ref_text T w rf = Some p -> ref_text T w' rf = Some p) ->
+  container_clauses w w' m mv.
+Proof.
+  intros Hm Hr. split; [|auto].
+  intros rf x _ (xm & p & Hxm & Hrp & Hp) _. exists xm, p. split; [unfold model_at in *; rewrite Hm; exact Hxm|]. auto.
+Qed.
+
+Lemma container_of_local h mv pos m version w w' r :
+  Inv06 T check_fn w ->
+  move_element_local T check_fn h mv pos m version w = Val (OK r, w') ->
+  model_of h w = Val (OK m, w) -> model_of mv w = Val (OK m, w) -> h <> mv -> identifiable T w mv = false ->
+  (forall n, w_nodes w h = Some n -> isref T (n_type n) = false) ->
+  (forall src dest, SpecPath T w m mv src -> SpecPath T w m h dest -> NoCollision w m mv src dest) ->
+  container_clauses w w' m mv.
+Proof.
+  intros HI Hml Hmh Hmm Hne Hid Hnr Hnc. pose proof HI as (HT & H4 & H5).
+  assert (HRmv : MReach T w m mv) by (apply (model_of_mreach T); assumption).
+  assert (HRh : MReach T w m h) by (apply (model_of_mreach T); assumption).
+  destruct (move_local_container h mv pos m version w w' r HI Hml HRmv HRh Hne Hid Hnr Hnc)
+    as (src & dest & xm & x' & Hsp & Hdp & Hxm & Hx' & Ht1 & Ht2).
+  split.
+  - intros rf x Hlive (xm0 & p & Hxm0 & Hr & Hp) Hb. assert (xm0 = xm) by congruence. subst xm0.
+    destruct (Ht1 rf p x Hr Hlive Hp Hb) as (suf & -> & Hr' & Hg').
+    exists x', (dest ++ suf). auto.
+  - intros rf p Hr Hnot. apply (Ht2 rf p Hr). intros (Hl & x & Hgx & Hrx). apply Hnot. split; [exact Hl|].
+    exists x. split; [exists xm, p; auto|exact Hrx].
+Qed.
+
+Lemma e_move_here_neq h mv w r w' :
+  e_move_element_here T tab_en check_fn LATEST h mv w = Val (OK r, w') -> h <> mv.
+Proof. intros H ->. unfold e_move_element_here in H. rewrite N.eqb_refl in H. discriminate H. Qed.
+Lemma e_move_here_at_neq h mv pos w r w' :
+  e_move_element_here_at T tab_en check_fn LATEST h mv pos w = Val (OK r, w') -> h <> mv.
+Proof. intros H ->. unfold e_move_element_here_at in H. rewrite N.eqb_refl in H. discriminate H. Qed.
+
+Theorem C06_move_container h mv w w' r m :
+  TablesOK T check_fn -> Inv06 T check_fn w ->
+  e_move_element_here T tab_en check_fn LATEST h mv w = Val (OK r, w') ->
+  model_of h w = Val (OK m, w) -> model_of mv w = Val (OK m, w) ->
+  identifiable T w mv = false ->
+  (forall src dest, SpecPath T w m mv src -> SpecPath T w m h dest -> NoCollision w m mv src dest) ->
+  container_clauses w w' m mv.
+Proof.
+  intros TK HI H Hmh Hmm Hid Hnc.
+  destruct (e_move_here_local T tab_en check_fn LATEST _ _ _ _ _ _ TK H Hmh Hmm) as [->|(pos & version & Hml & Hnr)].
+  { apply container_of_same_refs; auto. }
+  eapply container_of_local; eauto. eapply e_move_here_neq; eauto.
+Qed.
+
+Theorem C06_move_at_container h mv pos w w' r m :
+  TablesOK T check_fn -> Inv06 T check_fn w ->
+  e_move_element_here_at T tab_en check_fn LATEST h mv pos w = Val (OK r, w') ->
+  model_of h w = Val (OK m, w) -> model_of mv w = Val (OK m, w) ->
+  identifiable T w mv = false ->
+  (forall src dest, SpecPath T w m mv src -> SpecPath T w m h dest -> NoCollision w m mv src dest) ->
+  container_clauses w w' m mv.
+Proof.
+  intros TK HI H Hmh Hmm Hid Hnc. pose proof (e_move_here_at_neq _ _ _ _ _ _ H) as Hne.
+  unfold e_move_element_here_at in H.
+  destruct (h =? mv); [discriminate H|].
+  wk H. wk H. assert (a = m) by congruence. assert (a0 = m) by congruence. subst a a0.
+  wk H. wk H. destruct (negb (a0 =? a)); [discriminate H|].
+  wk H. apply get_node_inv in E3 as (n & Hn & Q & _). injection Q as ->.
+  wk H. apply get_node_inv in E3 as (mn & Hmn & Q & _). injection Q as ->.
+  wk H. destruct a1 as (rs, re).
+  assert (Hnr : forall n0, w_nodes w h = Some n0 -> isref T (n_type n0) = false).
+  { intros n0 Hn0. assert (n0 = n) by congruence. subst n0. eapply calc_range_not_ref; eauto. }
+  destruct ((rs <=? pos) && (pos <=? re)); [|discriminate H]. rewrite N.eqb_refl in H.
+  wk H. destruct a1 as [p|]; [|discriminate H].
+  destruct (p =? h).
+  - unfold move_element_position in H. wk H.
+    match goal with E : get_node h w = Val _ |- _ => apply get_node_inv in E as (n0 & Hn0 & Q & _) end. injection Q as ->.
+    assert (n0 = n) by congruence. subst n0.
+    destruct (pos <? re); [|discriminate H].
+    destruct (index_of (citem_is mv) (n_content n)) as [cur|]; [|discriminate H].
+    wk H. match goal with E : set_node _ _ _ = Val _ |- _ => apply set_node_inv in E as (_ & ->) end.
+    apply wret_inv in H as (_ & ->).
+    apply container_of_same_refs; [reflexivity|].
+    intros rf p0 Hr. rewrite <- Hr. apply ref_text_node. cbn [w_nodes]. apply upd_neq. intros ->.
+    destruct (ref_text_content T w h p0 n Hr Hn) as (_ & Hc). rewrite (Hnr n Hn) in Hc. discriminate Hc.
+  - eapply container_of_local; eauto.
+Qed.
+
 End Container.
